@@ -466,6 +466,30 @@ func oracleHMM(c *Case2) string {
 	ll := make([]float64, len(c.Trace))
 	for t, h := range c.Trace {
 		ll[t] = bruteLoglik(c, h)
+		// the estimate must be a hidden Markov model: Pi, every row of Tr and every emission table sum to one
+		sum1 := func(what string, xs []FS) string {
+			s := 0.0
+			for _, x := range xs {
+				s += math.Exp(x.f())
+			}
+			if math.Abs(s-1) > 1e-9 {
+				return fmt.Sprintf("after %d Baum-Welch steps %s sums to %.12g, not 1 (the estimate is not a probability table)", t, what, s)
+			}
+			return ""
+		}
+		if m := sum1("Pi", h.Pi); m != "" {
+			return m
+		}
+		for i := 0; i < c.M; i++ {
+			if m := sum1(fmt.Sprintf("row %d of Tr", i), h.Tr[i*c.M:(i+1)*c.M]); m != "" {
+				return m
+			}
+		}
+		for k, row := range h.Th {
+			if m := sum1(fmt.Sprintf("emission table %d", k), row); m != "" {
+				return m
+			}
+		}
 	}
 	for t := 1; t < len(c.Trace); t++ {
 		if ll[t] < ll[t-1]-1e-9*(math.Abs(ll[t-1])+1) {
